@@ -14,6 +14,7 @@ UNIT_MODULES = {
     "GenFarmer": "gen_farmer",
     "GenHarvest": "gen_harvest",
     "GenNames": "gen_names",
+    "GenPlot": "gen_plot",
     "GenPublish": "gen_publish",
     "GenReap": "gen_reap",
     "GenRunner": "gen_runner",
